@@ -720,7 +720,7 @@ fn ddl_case(w: &mut CaseWriter, tmp: &mut Tmp, ops: &[Op], kind: &str) {
 
 // ------------------------------------------------------------------ crash states of the catalog rewrite
 fn ino(p: &Path) -> u64 { use std::os::unix::fs::MetadataExt; std::fs::metadata(p).map(|m| m.ino()).unwrap_or(0) }
-struct CrashRun { dir: PathBuf, inplace: bool, oldfile: Vec<u8>, file: Vec<u8>, old_term: String, old_tabs: Vec<(String, String)> }
+struct CrashRun { dir: PathBuf, inplace: bool, evs: Vec<(u32, u64, u64)>, oldfile: Vec<u8>, file: Vec<u8>, old_term: String, old_tabs: Vec<(String, String)> }
 /// history `ops`, close; reopen, one more statement `last`, close.  None if `last` failed or left the catalog file unchanged.
 fn crash_setup(tmp: &mut Tmp, ops: &[Op], last: &Op) -> Option<CrashRun> {
     let dir = tmp.fresh();
@@ -734,13 +734,21 @@ fn crash_setup(tmp: &mut Tmp, ops: &[Op], last: &Op) -> Option<CrashRun> {
     let old_cat = match real_load(&cat_path) { Loaded::Ok(c) => c, _ => return None };
     let i0 = ino(&cat_path);
     let mut i1 = i0;
+    let evlog: std::sync::Arc<std::sync::Mutex<Vec<(u32, u64, u64)>>> = Default::default();
     let ok = {
         let db = Database::open(&dir).ok()?;
         let sql = op_sql(last);
+        // record what the statement does to the live catalog file (io_event hook of /repo)
+        let log = evlog.clone();
+        turdb::verif_hooks::set_io_hook(Some(std::sync::Arc::new(move |kind: u32, p: &Path, a: u64, b: u64| {
+            if p.file_name().map(|n| n == "turdb.catalog").unwrap_or(false) { log.lock().unwrap().push((kind, a, b)); }
+        })));
         let r = matches!(catch(AssertUnwindSafe(|| db.execute(&sql).is_ok())), Caught::Done(true));
+        turdb::verif_hooks::set_io_hook(None);
         i1 = ino(&cat_path);   // before the handle is dropped (Drop saves the catalog once more)
         r
     };
+    let evs = evlog.lock().unwrap().clone();
     if !ok { let _ = std::fs::remove_dir_all(&dir); return None; }
     let file = std::fs::read(&cat_path).ok()?;
     // what the statement itself removes or renames is not "lost"
@@ -755,7 +763,7 @@ fn crash_setup(tmp: &mut Tmp, ops: &[Op], last: &Op) -> Option<CrashRun> {
     let old_term = summary_term(&old_cat, &skip, &skip_idx);
     let mut old_tabs = vec![];
     for s in old_cat.schemas().values() { for t in s.tables().values() { if !skip(s.name(), t.name()) { old_tabs.push((s.name().to_string(), t.name().to_string())); } } }
-    Some(CrashRun { dir, inplace: i0 == i1, oldfile, file, old_term, old_tabs })
+    Some(CrashRun { dir, inplace: i0 == i1, evs, oldfile, file, old_term, old_tabs })
 }
 fn pout_term(l: &Loaded) -> String {
     match l { Loaded::Ok(c) => format!("(POk {})", summary_term(c, &|_, _| false, &|_| false)), Loaded::Err => "PErr".into(), Loaded::Panic => "PPanic".into() }
@@ -795,7 +803,8 @@ fn crash_case(w: &mut CaseWriter, tmp: &mut Tmp, rng: &mut Rng, ops: &[Op], last
         match runs.last_mut() { Some(r) if r.2 == t && r.1 + 1 == n => r.1 = n, _ => runs.push((n, n, t)) }
     }
     let obs: Vec<String> = runs.iter().map(|(lo, hi, t)| format!("ORun {} {} {}", z(*lo as i128), z(*hi as i128), t)).collect();
-    let term = format!("Crash {} {} {} {} {}", cbool(run.inplace), run.old_term, cbytes(&run.oldfile), cbytes(&run.file), clist(&obs));
+    let evs = clist(&run.evs.iter().map(|(k, a, b)| format!("({}, {}, {})", k, a, b)).collect::<Vec<_>>());
+    let term = format!("Crash {} {} {} {} {} {}", cbool(run.inplace), evs, run.old_term, cbytes(&run.oldfile), cbytes(&run.file), clist(&obs));
     let mut line = format!("crash ops={} | last={}", ops_enc(ops), op_enc(last));
     if let Some(n) = only_n { line.push_str(&format!(" | n={}", n)); }
     w.push(term, line, !run.old_tabs.is_empty(), kind);
